@@ -744,7 +744,7 @@ def run_docs(ctx, exe, exe_stream=None):
     model, model_err = None, None
     try:
         # the model listing is the expensive part: in the quick tier on a prefix of every source
-        lim_s, lim_m = (20, 14) if quick else (150, 100)
+        lim_s, lim_m = (16, 10) if quick else (150, 100)
         pick = [n for n, (cid, d, src) in enumerate(items)
                 if src == "reg" or (src == "synth" and n < len(regression_docs()) + lim_s)
                 or (src == "mut" and n < n_playable + lim_m)]
@@ -800,7 +800,7 @@ def run_docs(ctx, exe, exe_stream=None):
     eng = dict(compared=0, agree=0, skipped=0)
     try:
         import engine
-        lim = 24 if quick else 150
+        lim = 20 if quick else 150
         eng_cases.sort(key=lambda c: 0 if c["id"].endswith("|E") else 1 if c["id"].endswith("|P") else 2)
         sel = eng_cases[:lim]
         rs = engine.compare([{k: v for k, v in c.items() if k != "doc"} for c in sel], exe, shard=max(4, len(sel) // 12 + 1))
